@@ -21,6 +21,14 @@ PROPS = ("C01", "C05", "C13", "C14")
 
 
 # --------------------------------------------------------------------------- B1 worker
+def _s(obj) -> str:
+    """str() of a library object for messages; rendering itself may be broken, never let it escape."""
+    try:
+        return str(obj)
+    except Exception as e:  # noqa: BLE001
+        return f"<{type(obj).__name__} str() raised {type(e).__name__}>"
+
+
 def _kinds(v):
     return v["k"] if v["k"] != "union" else f"union{len(v['rs'])}"
 
@@ -62,7 +70,7 @@ def _replay_chunk(args):
             if spec_iface.norm_shape(got) != spec_iface.norm_shape(exp):
                 if spec_iface.den(got, n) != spec_iface.den(exp, n):
                     fails.append(("C01", f"C01:{site}:den-mismatch",
-                                  f"{op} on {spec_iface.text_of(a, pts)!r}, {spec_iface.text_of(b, alt)!r} gave {r!s} ; spec expects {spec_iface.text_of(exp, pts)!r}", ctx))
+                                  f"{op} on {spec_iface.text_of(a, pts)!r}, {spec_iface.text_of(b, alt)!r} gave {_s(r)} ; spec expects {spec_iface.text_of(exp, pts)!r}", ctx))
                 else:
                     fails.append(("C05", f"C05:{site}:non-canonical-shape",
                                   f"{op} result {got} denotes the right set but is not the canonical value {exp}", ctx))
@@ -76,20 +84,20 @@ def _replay_chunk(args):
                 fresh = spec_iface.build(exp, alt)
                 e1, e2 = bool(r == fresh), bool(fresh == r)
                 if spec_iface.norm_shape(got) == spec_iface.norm_shape(exp) and not (e1 and e2):
-                    fails.append(("C05", f"C05:{site}:eq-fresh", f"result {r!s} != freshly built equal value ({e1},{e2})", ctx))
+                    fails.append(("C05", f"C05:{site}:eq-fresh", f"result {_s(r)} != freshly built equal value ({e1},{e2})", ctx))
                 if e1 != e2:
                     fails.append(("C13", f"C13:{site}:eq-asymmetric", f"r==fresh is {e1} but fresh==r is {e2}", ctx))
                 if e1 and hash(r) != hash(fresh):
-                    fails.append(("C13", f"C13:eq-hash({_kinds(got)},{_kinds(exp)})", f"{r!s} == fresh value but hashes differ", ctx))
+                    fails.append(("C13", f"C13:eq-hash({_kinds(got)},{_kinds(exp)})", f"{_s(r)} == fresh value but hashes differ", ctx))
                 if not (r == r):
-                    fails.append(("C13", f"C13:{site}:eq-irreflexive", f"{r!s} != itself", ctx))
+                    fails.append(("C13", f"C13:{site}:eq-irreflexive", f"{_s(r)} != itself", ctx))
                 # operands: x == y  <=> same denotation
                 same = spec_iface.den(a, n) == spec_iface.den(b, n)
                 if bool(x == y) != same or bool(y == x) != same:
                     pid = "C13" if bool(x == y) != bool(y == x) else "C05"
-                    fails.append((pid, f"{pid}:eq({_kinds(a)},{_kinds(b)}):eq-vs-den", f"{x!s} == {y!s} is {x == y}/{y == x}, same set: {same}", ctx))
+                    fails.append((pid, f"{pid}:eq({_kinds(a)},{_kinds(b)}):eq-vs-den", f"{_s(x)} == {_s(y)} is {x == y}/{y == x}, same set: {same}", ctx))
                 if same and hash(x) != hash(y):
-                    fails.append(("C13", f"C13:eq-hash({_kinds(a)},{_kinds(b)})", f"{x!r} == {y!r} but hashes differ", ctx))
+                    fails.append(("C13", f"C13:eq-hash({_kinds(a)},{_kinds(b)})", f"{_s(x)} == {_s(y)} but hashes differ", ctx))
             except Exception as e:  # noqa: BLE001
                 fails.append(("C05", f"C05:{site}:observer-raises-{type(e).__name__}", repr(e), ctx))
     return done, fails
@@ -127,9 +135,9 @@ def _replay_laws_chunk(args):
                 fails.append(("C14", f"C14:{site}:raises-{type(e).__name__}", repr(e), ctx))
                 continue
             if not ok:
-                fails.append(("C14", f"C14:{site}:sides-differ", f"{vec['op']}: {lhs!s}  vs  {rhs!s}", ctx))
+                fails.append(("C14", f"C14:{site}:sides-differ", f"{vec['op']}: {_s(lhs)}  vs  {_s(rhs)}", ctx))
             elif hash(lhs) != hash(rhs):
-                fails.append(("C13", f"C13:eq-hash(law {vec['op']})", f"equal sides {lhs!r} / {rhs!r} hash differently", ctx))
+                fails.append(("C13", f"C13:eq-hash(law {vec['op']})", f"equal sides {_s(lhs)} / {_s(rhs)} hash differently", ctx))
     return done, fails
 
 
@@ -160,7 +168,7 @@ SESS_INVS = {"C01": ["SessDenExact"], "C05": ["SessCanonical", "SessTheCanonical
 def _mc(rep: Report, name: str, spec: str, n: int, invs: list[str], dump: str | None = None, timeout=1500):
     cfg = _cfg(f"SPECIFICATION {spec}\nCONSTANT N = {n}\n" + "".join(f"INVARIANT {i}\n" for i in invs) + "CHECK_DEADLOCK FALSE\n")
     try:
-        r = tla.run_tlc("IntervalAlgebra.tla", cfg, workers=8, args=(["-dump", dump] if dump else []), timeout=timeout)
+        r = tla.run_tlc("IntervalAlgebra.tla", cfg, workers=16, args=(["-dump", dump] if dump else []), timeout=timeout)
     finally:
         os.unlink(cfg)
     if r.violated:
@@ -192,7 +200,13 @@ def run(pid: str, tier: str, replay: str | None = None) -> int:
     try:
         dump = os.path.join(tmp, "pairs")
         _mc(rep, "Pairs", "PairsSpec", n, PAIRS_INVS[pid], dump=dump)
-        vectors = [st for st in tla.iter_dump(dump + ".dump") if st["op"] != "init"]
+        allstates = tla.load_dump(dump + ".dump")
+        values = {}
+        for st in allstates:
+            values.setdefault(json.dumps(st["a"], sort_keys=True), st["a"])
+        values = list(values.values())
+        vectors = [st for st in allstates if st["op"] != "init"]
+        del allstates
         os.unlink(dump + ".dump")
         for v in vectors:
             v.pop("c", None), v.pop("rhs", None)
@@ -220,27 +234,25 @@ def run(pid: str, tier: str, replay: str | None = None) -> int:
 
         # ----------------------------------------------------------- MC + B1: Laws (C14, C13)
         if pid in ("C14", "C13"):
-            ln = 2
-            dump = os.path.join(tmp, "laws")
-            _mc(rep, "Laws", "LawsSpec", ln, ["LawHolds", "LawSidesCanonical"], dump=dump)
-            if pid == "C14":
-                lv = [st for st in tla.iter_dump(dump + ".dump") if st["op"] != "init"]
-                for v in lv:
-                    v.pop("res", None), v.pop("rhs", None)
-                rng.shuffle(lv)
-                if not thorough:
-                    lv = lv[:40000]
-                lembs = spec_iface.embeddings(ln, seed, extra_random=0)[1:3]
-                tot = 0
-                for done, fails in _pool_map(_replay_laws_chunk, [(ch, ln, lembs) for ch in _chunks(lv, 64)]):
-                    tot += done
-                    for (p, sig, detail, vec) in fails:
-                        if p == pid:
-                            rep.violation(sig, detail, {"kind": "laws", "n": ln, **vec})
-                rep.add("traces_validated_against_impl", tot)
-                rep.count("b1_law_vectors", len(lv))
-            if os.path.exists(dump + ".dump"):
-                os.unlink(dump + ".dump")
+            _mc(rep, "Laws", "LawsSpec", 2, ["LawHolds", "LawSidesCanonical"])
+        if pid == "C14":
+            # B1 for laws: the operand values are the ones TLC enumerated for Pairs; triples are
+            # sampled by the harness (the oracle is the law itself: both sides must be ==).
+            ntri = 30000 if thorough else 3000
+            lv = []
+            for _ in range(ntri):
+                a, b, c = rng.choice(values), rng.choice(values), rng.choice(values)
+                for law in drive_spec.LAWS:
+                    lv.append({"a": a, "b": b, "c": c, "op": law})
+            lembs = [e for e in embs if e["name"] in ("dense", "lengths")]
+            tot = 0
+            for done, fails in _pool_map(_replay_laws_chunk, [(ch, n, lembs) for ch in _chunks(lv, 64)]):
+                tot += done
+                for (p, sig, detail, vec) in fails:
+                    if p == pid:
+                        rep.violation(sig, detail, {"kind": "laws", "n": n, **vec})
+            rep.add("traces_validated_against_impl", tot)
+            rep.count("b1_law_vectors", len(lv))
 
         # ----------------------------------------------------------- B3: recorded sessions
         _b3(rep, pid, seed, n_random=(6000 if thorough else 700), n_law=(6000 if thorough else 500), tmp=tmp)
